@@ -447,12 +447,20 @@ type Conn struct {
 	ReadsAfter  []int // number of deadlines set when each Read was issued
 	DeadlineErr bool
 	Remote      net.Addr
+	OnRead      ReadClock
 }
 
 var _ net.Conn = (*Conn)(nil)
 
 func (c *Conn) Read(p []byte) (int, error) {
 	c.ReadsAfter = append(c.ReadsAfter, len(c.Deadlines))
+	if c.OnRead != nil {
+		var active time.Time
+		if len(c.Deadlines) > 0 {
+			active = c.Deadlines[len(c.Deadlines)-1]
+		}
+		c.OnRead(active)
+	}
 	if len(p) == 0 {
 		return 0, nil
 	}
@@ -539,3 +547,6 @@ func NewInfo(label string, name string, kind int) (fs.FileInfo, int64, int64, in
 	}
 	return &base, base.MTimeV, base.MTimeV, base.MTimeV
 }
+
+// ReadClock, when set on a Conn, is called at every Read with the deadline in force (zero time if none).
+type ReadClock func(active time.Time)
